@@ -30,6 +30,8 @@ def _work(job):
     r = tv.validate_one(flex, workdir, 'c01_%d' % idx, rs, topt, seed ^ 0x5a5a, budget=budget,
                         driver_timeout=dtimeout)
     r['features'] = tv.features(rs)
+    if r.get('x_groups'):
+        r['features']['x_flag_groups_printed'] = r['x_groups']
     r['kind'] = kind
     r['seed'] = seed
     return r
